@@ -81,13 +81,13 @@ Proof.
   clear H2.
   destruct (String.eqb t "fixed") eqn:EF.
   - destruct (FX eq_refl) as (sz & -> & MP).
-    destruct SC as [-> | (s & -> & S1)]; cbn [truthy as_pyint];
+    destruct SC as [-> | (s & -> & S1)]; cbn [present is_jnull negb as_jint as_pyint];
       repeat (match goal with
               | |- context [Z.eqb ?a ?b] => destruct (Z.eqb_spec a b)
               | |- context [Z.ltb ?a ?b] => destruct (Z.ltb_spec a b)
               | |- context [Z.leb ?a ?b] => destruct (Z.leb_spec a b)
               end; cbn [negb andb pbind]; try lia); reflexivity.
-  - destruct SC as [-> | (s & -> & S1)]; cbn [truthy as_pyint];
+  - destruct SC as [-> | (s & -> & S1)]; cbn [present is_jnull negb as_jint as_pyint];
       repeat (match goal with
               | |- context [Z.eqb ?a ?b] => destruct (Z.eqb_spec a b)
               | |- context [Z.ltb ?a ?b] => destruct (Z.ltb_spec a b)
